@@ -78,7 +78,7 @@ class Parser(ICommParse):
 
         elif decode.dtype is EParseDataType.CHAR and len(unpacked) == 1:
             # decode bytes to string if possible
-            retdata = (unpacked[0].decode(),)
+            retdata = (unpacked[0].decode(errors="replace"),)
 
         else:
             # otherwise return without formating
